@@ -47,6 +47,10 @@ def FIRE(g):
     return dict(k='fire', g=g)
 
 
+def BLOCK(g):
+    return dict(k='block_on', g=g)
+
+
 def DROP(o):
     return dict(k='drop_obj', o=o)
 
@@ -193,6 +197,15 @@ def pool_families():
     return out
 
 
+def parked_drainer_families():
+    """a future job suspended inside a thread that drains synchronously (queue WaitingForUnpark) while another thread syncs / drops"""
+    return [
+        make('WSpark_DROP_p0', 1, 0, 2, [FD(1, aw=[1], label='f'), FIRE(2), WS('f')], [BLOCK(2), DROP(1)], [FIRE(1)]),
+        make('WSpark_S_p0', 1, 0, 2, [FD(1, aw=[1], label='f'), FIRE(2), WS('f')], [BLOCK(2), S(1)], [FIRE(1)]),
+        make('Spark_T_D_p0', 1, 0, 2, [FD(1, aw=[1], then='detach'), FIRE(2), S(1)], [BLOCK(2), T(1), D(1)], [FIRE(1)]),
+    ]
+
+
 def drop_families(pools=(0, 1)):
     out = []
     for p in pools:
@@ -302,7 +315,7 @@ def for_property(prop, tier, seed=0):
     """Returns the list of scenarios a property's check explores"""
     quick = tier == 'quick'
     if prop in ('C01', 'C02'):
-        fam = core_mix((0, 1) if quick else (0, 1, 2)) + future_mix((0, 1) if quick else (0, 1, 2))
+        fam = core_mix((0, 1) if quick else (0, 1, 2)) + future_mix((0, 1) if quick else (0, 1, 2)) + parked_drainer_families()[1:]
         if not quick:
             fam += three_thread((0, 1, 2))
     elif prop == 'C03':
@@ -311,7 +324,7 @@ def for_property(prop, tier, seed=0):
             fam += three_thread((1, 2))
     elif prop == 'C04':
         fam = core_mix((0, 1) if quick else (0, 1, 2)) + [s for s in future_mix((0, 1) if quick else (0, 1, 2)) if '_S_' in s['name'] or 'FDaw' in s['name']]
-        fam += three_thread((0,))[:1]
+        fam += three_thread((0,))[:1] + parked_drainer_families()[1:]
         if not quick:
             fam += three_thread((0, 1, 2))
     elif prop == 'C06':
@@ -327,7 +340,7 @@ def for_property(prop, tier, seed=0):
     elif prop == 'C17':
         fam = max_families()
     elif prop == 'C05':
-        fam = drop_families((0, 1) if quick else (0, 1, 2))
+        fam = drop_families((0, 1) if quick else (0, 1, 2)) + parked_drainer_families()[:1]
     elif prop == 'C08':
         fam = fsync_families((0, 1) if quick else (0, 1, 2))
         if quick:
@@ -335,7 +348,7 @@ def for_property(prop, tier, seed=0):
     elif prop == 'C13':
         fam = suspend_families((0, 1) if quick else (0, 1, 2))
     elif prop == 'C14':
-        fam = core_mix((1,))[:4] + drop_families((1,)) + fsync_families((1,))[:6]
+        fam = core_mix((1,))[:4] + drop_families((1,)) + fsync_families((1,))[:6] + parked_drainer_families()
     elif prop == 'C11':
         fam = pipe_in_families((1,) if quick else (1, 2))
     elif prop == 'C12':
